@@ -233,13 +233,16 @@ def prevE (d : Daemon W) (id : CId) : Option CId :=
   | some r => r
   | none => none
 
+/-- the read test in that post-processing, as the source text has it -/
+def readWait (e : Eli) : Bool := if ereadyDropExactRead then e.isRead else e.hasRead
+
 /-- the post-processing of one eready entry after call_handlers -/
 def ereadyAfter (d : Daemon W) (id : CId) : Daemon W :=
   match d.lookup id with
   | none => d
   | some (c, wh) =>
     if c.inEready && !c.epSusp &&
-       ((c.loc.eli.isRead && !c.loc.rdReady) || (c.loc.eli.isWrite && !c.loc.wrReady) || c.loc.eli.isCleanup)
+       ((readWait c.loc.eli && !c.loc.rdReady) || (c.loc.eli.isWrite && !c.loc.wrReady) || c.loc.eli.isCleanup)
     then (d.place { c with inEready := false } wh wh |> fun d1 => { d1 with eready := d1.eready.erase id })
     else d
 
